@@ -441,6 +441,9 @@ def unbiased_sweep(run: Run, tier, rng):
         m = rng.choice([2, 3, 5, 9, 20])
         n = rng.choice([1, 2, 5, 16, 33])
         w = gen_weights(rng, rng.choice(["dirichlet", "dominant", "zeros", "dyadic", "tiny_tail"]) if t % 5 else "tiny_tail", m)
+        if t % 3 == 2:
+            # sums that are off 1 by more than sqrt(eps) (3e-8 ... 8e-6): the routine renormalises, expected copies are n * w_k / sum
+            w = [x * (1 + (3e-6, -8e-6, 4.5e-8, -3e-7)[(t // 3) % 4]) for x in w]
         bps = breakpoints(n, w)
         edges = [Fraction(0)] + [b for b in bps if 0 < b < 1] + [Fraction(1)]
         exp = [Fraction(0)] * m
